@@ -110,6 +110,8 @@ type FnCtx struct {
 	deferred []*ssa.Defer
 	curPos token.Pos
 	regions map[*ssa.Alloc]*Region
+	// pointers wrapped into interface values (binary.Read(r, order, &x)): the engine-level pointer by MakeInterface
+	ifacePtrs map[ssa.Value]*PtrInfo
 	appendSites map[ssa.Instruction]int
 	unrollTag string // suffix making obligation names unique inside unrolled loops
 	pureEval  bool   // evaluating the body of an opaque spec function: memory must not be read
